@@ -16,6 +16,7 @@ Base case: the source table establishes the invariants.
 
 from __future__ import annotations
 
+import dataclasses
 import itertools
 
 import z3
@@ -452,8 +453,13 @@ def obligations(tier):
                     tags=("cross_backend",),
                 )
             )
-    from . import c01, c10
+    from . import c01, c06, c10
 
+    # join is a verb like the others: its step obligations (names rule, Cache invariant M1, coupling with the backend state) are
+    # C11's claim for the two-table step
+    for ob in c06.obligations(tier):
+        if ob.oid.startswith("C06/N1-N4/"):
+            obs.append(dataclasses.replace(ob, oid=ob.oid.replace("C06/N1-N4/", "C11/M9/join/"), group="M1+M3"))
     for si in range(3):
         obs.append(Obligation(f"C11/M8/hidden_refs/stasher{si}", "M8", "columns() / iteration agree with the exported frame on Polars and SQLite when hidden columns are referenced through an earlier table object, also across alias(keep_col_refs=True) and subqueries (native)",
                               c01.make_h("mixed", si), functions=[H.fn_info(H.sql_backend.SqlImpl.compile_ast), H.fn_info(TS.Cache.update)], bounded="one column-hiding step >> every step of the C01 alphabet >> with / without alias(keep_col_refs=True) >> 3 uses of the hidden column"))
